@@ -1,3 +1,4 @@
 import SmtpV.Props.C04
 #print axioms SmtpV.Props.C04.C04_own_verdict
 #print axioms SmtpV.Props.C04.C04_reply_syntax
+#print axioms SmtpV.Props.C04.C04_reply_syntax_multiline
